@@ -14,6 +14,7 @@ mod rng;
 mod suite;
 mod toy;
 mod record;
+mod codec;
 
 use std::collections::BTreeMap;
 use std::io::{BufRead, Write};
@@ -281,6 +282,28 @@ fn cmd_run(args: &[String]) -> i32 {
     0
 }
 
+fn codec_one<C: Suite>(seed: u64, heavy: bool, f: &mut dyn Write) -> (u64, u64) {
+    codec::run::<C>(seed, heavy, f)
+}
+
+/// fv codec --suite S [--q Q] --seed N [--heavy] --events FILE
+fn cmd_codec(args: &[String]) -> i32 {
+    let suite = arg_val(args, "--suite").unwrap_or_else(|| "toy".into());
+    let seed: u64 = arg_val(args, "--seed").and_then(|s| s.parse().ok()).unwrap_or(1);
+    let heavy = args.iter().any(|a| a == "--heavy");
+    let out = arg_val(args, "--events").expect("--events");
+    if suite == "toy" {
+        let q: u32 = arg_val(args, "--q").and_then(|s| s.parse().ok()).unwrap_or(251);
+        toy::set_params(toy::ToyParams::for_q(q).expect("toy params"));
+        toy::oracle_reset();
+    }
+    let mut f = std::io::BufWriter::new(std::fs::File::create(out).expect("events file"));
+    let (n, acc) = with_suite!(suite.as_str(), codec_one(seed, heavy, &mut f));
+    let _ = f.flush();
+    println!("SUMMARY {}", json!({"events": n, "accepted": acc}));
+    0
+}
+
 fn arg_val(args: &[String], name: &str) -> Option<String> {
     args.iter().position(|a| a == name).and_then(|i| args.get(i + 1).cloned())
 }
@@ -408,6 +431,7 @@ fn main() {
         Some("replay") => cmd_replay(&args[2..]),
         Some("record") => record::cmd_record(&args[2..]),
         Some("run") => cmd_run(&args[2..]),
+        Some("codec") => cmd_codec(&args[2..]),
         _ => {
             eprintln!("usage: fv replay|record ...");
             2
